@@ -77,7 +77,30 @@ func gen(t *rapid.T) Case {
 	// phase A: calls in flight / concurrent with Close
 	na := rapid.IntRange(0, 10).Draw(t, "na")
 	for i := 0; i < na; i++ {
-		c.Ops = append(c.Ops, genCall(t, c, i, held))
+		op := genCall(t, c, i, held)
+		// some calls are abandoned while they are being sent: the stream is reset and
+		// re-created before (or while) Close strikes
+		if rapid.IntRange(0, 3).Draw(t, fmt.Sprintf("abandon%d", i)) == 0 {
+			op.Call.Ctx, op.CancelUs = "cancel", rapid.SampledFrom([]int{1, 50, 300}).Draw(t, fmt.Sprintf("abandonUs%d", i))
+		}
+		c.Ops = append(c.Ops, op)
+	}
+	// a server that crashes and comes back before Close: its node has been through a reconnection
+	if rapid.IntRange(0, 3).Draw(t, "restart") == 0 {
+		s := rapid.IntRange(0, n-1).Draw(t, "restartNode")
+		down := false
+		for _, d := range c.Down {
+			if d == s {
+				down = true
+			}
+		}
+		if !down {
+			c.Ops = append(c.Ops,
+				peng.Op{Kind: "stop", Thread: 1, Call: scen.CallSpec{Node: s}},
+				peng.Op{Kind: "sleep", Thread: 1, Us: rapid.SampledFrom([]int{100, 2000, 30000}).Draw(t, "downUs")},
+				peng.Op{Kind: "start", Thread: 1, Call: scen.CallSpec{Node: s}},
+				peng.Op{Kind: "sleep", Thread: 1, Us: rapid.SampledFrom([]int{100, 5000}).Draw(t, "upUs")})
+		}
 	}
 	// non-reading server with a flood: requests being written when Close strikes
 	if rapid.IntRange(0, 3).Draw(t, "flood") == 0 {
@@ -210,6 +233,30 @@ func run(c Case) vt.Verdict {
 	}
 	if len(c.P.Down) > 0 {
 		classes = append(classes, "node-never-connected")
+	}
+	for _, op := range c.P.Ops {
+		if op.Kind == "stop" {
+			classes = append(classes, "server-crashed-before-close")
+			break
+		}
+	}
+	for _, op := range c.P.Ops {
+		if op.Kind == "call" && op.CancelUs > 0 {
+			classes = append(classes, "call-abandoned-during-send-before-close")
+			break
+		}
+	}
+	naccept := map[int]int{}
+	for _, e := range r.Events {
+		if e.Kind == "accept" {
+			naccept[e.Server]++
+		}
+	}
+	for _, k := range naccept {
+		if k > 1 {
+			classes = append(classes, "node-reconnected-before-close")
+			break
+		}
 	}
 	hist := func(v vt.Verdict) vt.Verdict { v.History = r.Events; v.Classes = classes; return v }
 	if r.ClosePanic != "" {
